@@ -1,1 +1,35 @@
-fn main() {}
+//! C18, type-level half: exactly the auto-trait bounds the statement names, nothing else.
+//! If one of them does not hold this crate does not compile (E0277); the C18 check reports that
+//! diagnostic as the violation. It is also the literal precondition of the multi-threaded workload.
+
+use reval::prelude::*;
+use serde::Serialize;
+
+fn is_send_sync<T: Send + Sync>() {}
+fn is_send<T: Send>(_: &T) {}
+
+#[derive(Serialize)]
+struct Input {
+    a: i32,
+}
+
+fn main() {
+    is_send_sync::<RuleSet>();
+    is_send_sync::<Rule>();
+    is_send_sync::<Expr>();
+    is_send_sync::<reval::expr::Index>();
+    is_send_sync::<Value>();
+    is_send_sync::<Symbols>();
+    is_send_sync::<reval::Error>();
+    is_send_sync::<reval::parse::Error>();
+    is_send_sync::<reval::ruleset::Outcome<'static>>();
+
+    let ruleset = ruleset().build();
+    let value = Value::None;
+    let expr = Expr::value(1);
+    let input = Input { a: 1 };
+    is_send(&expr.evaluate(&value));
+    is_send(&ruleset.evaluate_value(&value));
+    is_send(&ruleset.evaluate(&input));
+    let _ = input.a;
+}
